@@ -29,6 +29,7 @@ IMPORTS = ("From Coq Require Import List NArith Bool.\nFrom JrV Require Import C
 FUEL = 400
 
 ERRCLASS = {
+    "INJECTED": "EIo",
     "ImportFileNotFound": "ENotFound",
     "ImportIo": "EIo", "RuntimeError": "EIo", "ResolvedFileNotFound": "EIo", "ImportIsADirectory": "EIo",
     "ImportBadFileUtf8": "EUtf8",
@@ -583,6 +584,7 @@ def judge(run, L, s, mres, mlog, mfresh, mfixed, mcalls, o, failures, model_diff
         return
     cres = [norm_code_result(r) for r in o["results"]]
     clog = [norm_code_event(e) for e in o["log"]]
+    injected = [e[0] == "resolve" and e[3] == "err:INJECTED" for e in o["log"]]
     for r in cres:
         run.count("result:" + next(iter(r)) + (":" + r["err"] if "err" in r else ""))
     for op in L.ops:
@@ -622,8 +624,8 @@ def judge(run, L, s, mres, mlog, mfresh, mfixed, mcalls, o, failures, model_diff
     for e in mlog:
         if e[0] == "resolve":
             want.setdefault((e[1], e[2]), set()).add(e[3])
-    for e in clog:
-        if e[0] == "resolve":
+    for e, inj in zip(clog, injected):
+        if e[0] == "resolve" and not inj:
             w = want.get((e[1], e[2]))
             if w is not None and e[3] not in w:
                 fail(f"import of {e[2]!r} from {e[1]} resolved to {e[3]}", sorted(w), e[3])
